@@ -39,7 +39,8 @@ type restStep struct {
 	HasSkew bool         `json:"has_skew,omitempty"`
 	Skew    uint64       `json:"skew,omitempty"`
 	Dist    int          `json:"dist,omitempty"`
-	Mut     int          `json:"mut,omitempty"` // 0 none, 1 digit edit, 2 truncate, 3 extend
+	Mut     int          `json:"mut,omitempty"` // 0 none, 1 digit edit, 2 truncate, 3 extend, 4.. look-alikes (see mutate)
+	SibDig  int          `json:"sib_digits,omitempty"` // != 0: submit the genuine code of the counter under THIS code length instead
 	RawName string       `json:"raw_name,omitempty"`
 	Cfg     ref.OCRACfg  `json:"cfg"`
 	HashStr string       `json:"hash_str,omitempty"` // spelling of suite.hash_function
@@ -304,6 +305,10 @@ func runRestStep(sv *restServer, s restStep) (labels []string, nt bool, err erro
 			path = "/totp/validate"
 		}
 		code := mutate(ref.MustHOTP(s.Key, centre+uint64(int64(s.Dist)), d, a), s.Mut)
+		if s.SibDig != 0 && s.SibDig != d {
+			code = ref.MustHOTP(s.Key, centre+uint64(int64(s.Dist)), s.SibDig, a)
+			labels = append(labels, "sibling-digits")
+		}
 		body := s.body(map[string]any{"code": code})
 		r := post(path, body)
 		want := false
@@ -479,7 +484,8 @@ func runRestStep(sv *restServer, s restStep) (labels []string, nt bool, err erro
 		}
 		return labels, true, nil
 	case "url":
-		m := map[string]any{"type": s.Type, "secret": gen.Spell(s.Key, gen.Spelling{Pad: 1}), "issuer": s.Issuer, "account_name": s.Account}
+		urlSecret := gen.Spell(s.Key, gen.Spelling{Pad: s.Sp.Pad, PadN: s.Sp.PadN, Case: s.Sp.Case, Mask: s.Sp.Mask}) // as given: padded or not, any letter case
+		m := map[string]any{"type": s.Type, "secret": urlSecret, "issuer": s.Issuer, "account_name": s.Account}
 		if s.HasPer {
 			m["period"] = s.Per
 		}
@@ -495,7 +501,7 @@ func runRestStep(sv *restServer, s restStep) (labels []string, nt bool, err erro
 		if !s.HasDig {
 			d = 6
 		}
-		up := otp.URLParam{Issuer: s.Issuer, AccountName: s.Account, Secret: gen.Spell(s.Key, gen.Spelling{Pad: 1}), Digits: otp.Digits(d), Algorithm: otp.Algorithm(a)}
+		up := otp.URLParam{Issuer: s.Issuer, AccountName: s.Account, Secret: urlSecret, Digits: otp.Digits(d), Algorithm: otp.Algorithm(a)}
 		if s.HasPer {
 			up.Period = uint(s.Per)
 		}
@@ -681,6 +687,9 @@ func drawRestStep(t *rapid.T) restStep {
 		}
 		s.Dist = rapid.IntRange(-int(sk)-2, int(sk)+2).Draw(t, "dist")
 		s.Mut = rapid.SampledFrom([]int{0, 0, 0, 0, 1, 2, 3, 4, 5, 6, 7}).Draw(t, "mut")
+		if rapid.IntRange(0, 7).Draw(t, "sibDigQ") == 0 {
+			s.SibDig = rapid.SampledFrom([]int{6, 8, 9, 10, 7}).Draw(t, "sibDig")
+		}
 	case "hotp-gen", "chain-hotp":
 		s.HasCtr = rapid.IntRange(0, 3).Draw(t, "hasCtr") != 0
 		s.Ctr = gen.Counter().Draw(t, "ctr")
